@@ -3072,7 +3072,9 @@ func generateRandomizedSpec(
 	points := SupportedPointsExtension{SupportedPoints: []byte{pointFormatUncompressed}}
 
 	curveIDs := []CurveID{}
-	if r.FlipWeightedCoin(id.Weights.CurveIDs_Append_X25519) && p.TLSVersMax == VersionTLS13 {
+	// the hybrid group is listed in supported_groups if and only if a key share is sent for it
+	withMLKEM := r.FlipWeightedCoin(id.Weights.CurveIDs_Append_X25519) && p.TLSVersMax == VersionTLS13
+	if withMLKEM {
 		curveIDs = append(curveIDs, X25519MLKEM768)
 	}
 	if r.FlipWeightedCoin(id.Weights.CurveIDs_Append_X25519) || p.TLSVersMax == VersionTLS13 {
@@ -3132,9 +3134,12 @@ func generateRandomizedSpec(
 			if r.FlipWeightedCoin(id.Weights.KeyShare_Append_RandomGroups) {
 				ks.KeyShares = append(ks.KeyShares, KeyShare{Group: CurveP256})
 			}
-			if r.FlipWeightedCoin(id.Weights.KeyShare_Append_RandomGroups) {
-				ks.KeyShares = append([]KeyShare{{Group: X25519MLKEM768}}, ks.KeyShares...)
-			}
+			// this coin used to decide the hybrid key share on its own; it is still
+			// drawn so that the rest of the spec stays the same for a given seed
+			_ = r.FlipWeightedCoin(id.Weights.KeyShare_Append_RandomGroups)
+		}
+		if withMLKEM {
+			ks.KeyShares = append([]KeyShare{{Group: X25519MLKEM768}}, ks.KeyShares...)
 		}
 		pskExchangeModes := PSKKeyExchangeModesExtension{[]uint8{pskModeDHE}}
 		supportedVersionsExt := SupportedVersionsExtension{
